@@ -15,11 +15,12 @@ theorem slice_checkEor (n : Nat) (t : Slice) (ht : SInv t) :
     Slice.checkEor t n = if t.rest.length < n then (.eof, t) else (.ok (), t) := by
   unfold Slice.checkEor SInv at *
   rw [rest_length]
-  by_cases h : t.pos + n > t.source.length
+  have h0 : ¬ t.source.length < t.pos := by omega
+  by_cases h : n > t.source.length - t.pos
   · have : t.source.length - t.pos < n := by omega
-    simp [h, this]
+    simp [h0, h, this]
   · have : ¬ t.source.length - t.pos < n := by omega
-    simp [h, this]
+    simp [h0, h, this]
 
 theorem slice_readSlice_refines (n : Nat) (t : Slice) (ht : SInv t) :
     Agree SInv Slice.rest (Slice.readSlice t n) (Mem.readSlice n t.rest) := by
